@@ -66,6 +66,8 @@ L0 == {p, q, U("not", p), Num(1, 1), Num(0, 1)}
 L1 == L0 \cup {N2(o, a, b) : o \in {"and", "or"}, a \in {p, U("not", p)}, b \in {q, U("not", q), Num(1, 1)}}
          \cup {B(o, a, b) : o \in {"xor", "implies", "iff", "b_and", "b_or", "b_implies"}, a \in {p, U("not", p)}, b \in {q, Num(0, 1)}}
          \cup {N3(o, p, q, r) : o \in {"and", "or"}}
+         \* a negation under a negation (the rendering has to keep them apart: one prefix operator per operand)
+         \cup {U(o, U("not", p)) : o \in {"not", "u_not"}} \cup {N2("or", U("not", U("not", q)), p)}
 L2 == L1 \cup {U(o, t) : o \in {"not", "u_not"}, t \in L1 \ L0}
          \cup {N2(o, t, l) : o \in {"and", "or"}, t \in L1 \ L0, l \in {r, U("not", r)}}
          \cup {B(o, t, r) : o \in {"xor", "implies", "iff"}, t \in L1 \ L0}
